@@ -2904,6 +2904,10 @@ func MigrateHome(st *state.State, snaps []string) ([]*state.TaskSet, error) {
 		}
 	}
 
+	if err := CheckChangeConflictMany(st, snaps, ""); err != nil {
+		return nil, err
+	}
+
 	var tss []*state.TaskSet
 	for _, name := range snaps {
 		si := allSnaps[name].CurrentSideInfo()
